@@ -391,6 +391,57 @@ class Module:
                 return
         raise Untranslatable(f"{name} not found", where=self.path)
 
+    def translate_float_expr_method(self, cls: str, name: str, lean_name: str, params: list[str]) -> None:
+        """T6: a method whose body is `return <expr>` with +, -, * over its array parameter and `self._x` float
+        attributes -> a Lean term over an abstract record of rounding operations (`Py.FloatOps`)."""
+        fn = self.find_func(cls, name)
+        stmts = [st for st in fn.body if not (isinstance(st, ast.Expr) and isinstance(st.value, ast.Constant))]
+        if len(stmts) != 1 or not isinstance(stmts[0], ast.Return) or stmts[0].value is None:
+            raise Untranslatable(f"{cls}.{name}: body is not a single return", fn, self.path)
+        ops = {ast.Add: "add", ast.Sub: "sub", ast.Mult: "mul"}
+
+        def tr(e: ast.expr) -> str:
+            if isinstance(e, ast.BinOp) and type(e.op) in ops:
+                return f"(ops.{ops[type(e.op)]} {tr(e.left)} {tr(e.right)})"
+            if isinstance(e, ast.Name) and e.id in params:
+                return e.id
+            if isinstance(e, ast.Attribute) and isinstance(e.value, ast.Name) and e.value.id == "self" and e.attr.lstrip("_") in params:
+                return e.attr.lstrip("_")
+            raise Untranslatable(f"{cls}.{name}: unsupported float expression {ast.unparse(e)}", e, self.path)
+        body = tr(stmts[0].value)
+        binders = " ".join(params)
+        self.out.append(f"/-- generated from `{cls}.{name}`: `{ast.unparse(stmts[0].value)}` -/")
+        self.out.append(f"@[pygen] def {lean_name} {{α : Type}} (ops : Py.FloatOps α) ({binders} : α) : α := {body}")
+        self.out.append("")
+
+    def translate_kind_assignments(self, cls: str, name: str, attrs: list[str]) -> None:
+        """T6: `self._x = float(arg_to_float("…", x))`-style assignments of an `__init__` -> what kind of object is
+        stored, as a composition of the prelude's `Py.Kind` functions (`float(e)`, `arg_to_float(_, e)`, a parameter)."""
+        fn = self.find_func(cls, name)
+        found = {}
+        for st in ast.walk(fn):
+            if isinstance(st, ast.Assign) and len(st.targets) == 1 and isinstance(st.targets[0], ast.Attribute) \
+                    and isinstance(st.targets[0].value, ast.Name) and st.targets[0].value.id == "self":
+                found[st.targets[0].attr] = st.value
+        pnames = [a.arg for a in fn.args.args[1:]]
+
+        def tr(e: ast.expr) -> str:
+            if isinstance(e, ast.Name) and e.id in pnames:
+                return f"(pure {e.id})"
+            if isinstance(e, ast.Call) and isinstance(e.func, ast.Name) and not e.keywords:
+                if e.func.id == "float" and len(e.args) == 1:
+                    return f"({tr(e.args[0])} >>= Py.Kind.floatCall)"
+                if e.func.id == "arg_to_float" and len(e.args) == 2:
+                    return f"({tr(e.args[1])} >>= Py.Kind.argToFloat)"
+            raise Untranslatable(f"{cls}.{name}: unsupported stored-value expression {ast.unparse(e)}", e, self.path)
+        for a in attrs:
+            if a not in found:
+                raise Untranslatable(f"{cls}.{name}: no assignment to self.{a}", fn, self.path)
+            self.out.append(f"/-- generated from `{cls}.{name}`: `self.{a} = {ast.unparse(found[a])}` -/")
+            binders = " ".join(pnames)
+            self.out.append(f"@[pygen] def {cls}.{a.lstrip('_')}_stored ({binders} : Py.Kind) : Except PyErr Py.Kind := {tr(found[a])}")
+            self.out.append("")
+
     def translate_dispatch_branch(self, cls: str, name: str, kind: str, kind_type, lean_name: str,
                                   arg: str = "value") -> FuncInfo:
         """T4: the branch of an `if isinstance(arg, K) ... elif ...` chain selected by `kind`."""
@@ -423,7 +474,7 @@ class Module:
     def render(self, header_imports: list[str]) -> str:
         lines = ["-- GENERATED by tools/pylean from " + self.path.split("/src/")[-1] + " — do not edit",
                  "import NiVerif.Py.Int", "import NiVerif.Py.Err", "import NiVerif.Py.Attr",
-                 "import NiVerif.Py.Time", "import NiVerif.Py.Render"]
+                 "import NiVerif.Py.Time", "import NiVerif.Py.Render", "import NiVerif.Py.Float"]
         lines += [f"import {i}" for i in header_imports]
         lines += ["set_option linter.unusedVariables false", "", f"namespace {self.ns}", ""]
         for m in self.imports:
